@@ -433,7 +433,11 @@ impl Alphabet {
         let ps = self.universe.with_root();
         let mut v = vec![];
         for p in &ps {
-            v.push(Op::CreateDir(p.clone()));
+            // a name with the overlay's reserved marker suffix is never made a directory (no
+            // universe but C05's `U_wo2` has such a name; see there)
+            if !p.ends_with("_wo") {
+                v.push(Op::CreateDir(p.clone()));
+            }
             for w in &self.contents {
                 v.push(Op::CreateFile(p.clone(), w.clone()));
             }
